@@ -92,8 +92,42 @@ def run(pid, tier, site_filter=None, title=""):
     return rep, cov
 
 
+def roundtrip_obligations(rep, tier):
+    """try_from_bytes -> into_bytes analysed as ONE composition with symbolic coefficients (linear forms modulo q
+    through the transforms, see C09 P3): here the encode-range self-checks that the per-root analysis has to assume
+    are decided, so no assumption applies to this composition."""
+    sets = aicheck.sets_for(tier)
+    lin = {"modulus": "8380417", "lin.cap": "600"}
+    jobs = {}
+    for s in sets:
+        n = roots.names(s)
+        jobs[s + ":rt-pk"] = [("%s:rt:pk" % s, n["pk_from_bytes"], dict(lin, atomize="conversion::simple_bit_unpack", then=n["pk_into_bytes"]))]
+        jobs[s + ":rt-sk"] = [("%s:rt:sk" % s, n["sk_from_bytes"], dict(lin, atomize="conversion::bit_unpack", then=n["sk_into_bytes"]))]
+    res, errs = aicheck.run_sets(jobs, timeout=6000)
+    n_sites = n_ok = 0
+    for key in jobs:
+        r = res.get(key)
+        if r is None:
+            vlib.fail_closed(rep, "driver-roundtrip:%s" % key, errs.get(key))
+            continue
+        j = r["jobs"][0]
+        if j.get("error") or j.get("over_budget") or j.get("result") is None or r["unmodelled"] or r["unsupported"]:
+            vlib.fail_closed(rep, "roundtrip-job:%s" % key, {"error": j.get("error"), "unmodelled": r["unmodelled"], "unsupported": r["unsupported"]})
+            continue
+        for x in r["sites"]:
+            if x["visits"] == 0 and not x["violated"]:
+                continue
+            n_sites += 1
+            if x["violated"]:
+                rep.violation("roundtrip:" + aicheck.stable_key(x), dict(aicheck.site_report(x), rule="no obligation may fail along try_from_bytes -> into_bytes for any input (no assumption applies to this composition)"))
+            else:
+                n_ok += 1
+    return {"obligations_visited": n_sites, "discharged": n_ok, "sets": sets}
+
+
 def main(tier):
     rep, cov = run("C13", tier, title="all panic obligations reachable from the public API, per root x producer composition")
+    cov["roundtrip_composition"] = roundtrip_obligations(rep, tier)
     return rep.finish("other", cov, ["see trusted_base", "rejection-loop iteration count is unbounded in the abstract (kappa overflow sites assumed, see DESIGN D5)"])
 
 
